@@ -418,6 +418,12 @@ def check(fx, rep, tier):
         check_usage_laws(fx, rep, "R16.2", usages, table, want_upper_bound=False)
     check_absorption(mm, rep)
     check_combine(fx, rep)
+    # the outcome may not depend on which type variables stand for the parts: no ordering by identity inside merge and its helpers
+    from .c02 import check_identity_order
+    from .. import facts as _F
+    cg = _F.CallGraph(fx)
+    scope = sorted(n for n in cg.reachable([mm.fn["def"]]) if n.startswith(("tc::unification::", "tc::expression::", "<tc::expression::", "<tc::unification::")))
+    check_identity_order(fx, rep, "R16.1", scope, 2)
     rep.exhaustive = True
     return rep.finish(
         "Finite arm-table analysis of the pairwise combination: arm selection for all ordered constructor pairs (first-match with guards as may-match), "
